@@ -65,6 +65,7 @@ def build_cards(kind, cards, pooled=("P", "Q")):
         if ph:
             votes = {CID: {}} if cc == "blank" else {}
         cvrs.append(CVR(id=f"card{i}", votes=votes, phantom=ph, tally_pool=("P" if p == "Pu" else p), pool=(p in pooled), sample_num=i + 1))
+        cvrs[-1].sampled = True  # every card of a sample carries the flag consistent_sampling leaves on it (whichever contest it was drawn for)
         if mc == "unfindable":
             mvrs.append(CVR(id=f"card{i}", votes={}, phantom=True))
         else:
